@@ -1,15 +1,38 @@
-/-! DeviceLocal.ProcessCmd + FeatureLocal/NodeManagement.HandleMessage + the Sender's counter and request cache,
-    for datagrams with empty payloads; static trees; no subscriptions. Responses are computed by pure functions,
-    the state (message counter, unanswered-request cache) is threaded separately. -/
+/-! DeviceLocal.ProcessCmd + FeatureLocal/NodeManagement.HandleMessage + the Sender's counter and request cache
+    + the binding / subscription registries as far as the write gate and the notification fan-out of an accepted
+    write need them (grant, delete, entity removed, disconnect), for several connected peers.
+    Payloads are abstract (a function id); the data effect of a write is recorded, not computed.
+    Responses are computed by pure functions, the state (message counters, unanswered-request caches, registries,
+    announced remote features) is threaded separately.
+
+    The model is a family (DESIGN §4.7): `Cfg` selects, per known defect, the code as written (`true`) or the
+    minimal repair (`false`). -/
 namespace Spine.Disp
 
 inductive Role | client | server | special deriving DecidableEq, Repr
 inductive Cls | read | reply | notify | write | call | result deriving DecidableEq, Repr
 
+abbrev Addr := List Nat × Nat                 -- entity address, feature number
+
+/-- defect flags; `true` = the code as written at the pinned commit -/
+structure Cfg where
+  /-- `ProcessCmd` answers a datagram to an unknown local feature with an error result before it looks at the
+      classifier, hence also a `result` (C01) -/
+  resultOnResult : Bool := true
+  /-- `RemoveBinding` keeps an entry only if it differs in the client address *and* in the server feature, so it
+      drops every entry that shares one of the two (C09) -/
+  unbindDisjunct : Bool := true
+  /-- `RemoveBindingsForEntity` compares the entity address only, not the device: a peer's entity removal or
+      disconnect also drops the bindings other peers hold for an equally numbered entity (C10) -/
+  entRemovalAnyPeer : Bool := true
+deriving DecidableEq, Repr
+
+def Cfg.clean : Cfg := { resultOnResult := false, unbindDisjunct := false, entRemovalAnyPeer := false }
+
 structure LF where          -- local feature
   ent : List Nat
   feat : Nat
-  typ : Nat
+  typ : Nat                 -- feature type; 0 = Generic
   role : Role
   fds : List Nat            -- functions with function data (CreateFunctionData for the type)
   ops : List (Nat × Bool)   -- announced functions with their write flag
@@ -20,36 +43,48 @@ structure RF where          -- remote feature of a peer
   ent : List Nat
   feat : Nat
   fds : List Nat
+  typ : Nat := 0
+  role : Role := .client
 deriving Repr
 
 structure Dg where
-  src : List Nat × Nat
-  dst : List Nat × Nat
+  src : Addr
+  dst : Addr
   ctr : Nat
   ref : Option Nat
   cls : Cls
   ack : Bool
-  fn : Nat                  -- payload function; 900 = resultData, 901 = discovery data, 902 = use case data
+  fn : Nat                  -- payload function; 900 = resultData, 901 = discovery data, 902 = use case data,
+                            -- 903 = destination list data, 904 = subscription data, 905 = binding data
+  bad : Bool := false       -- a write payload the update engine rejects (abstract input: e.g. a partial write of a
+                            -- function whose data type supports no partial update)
 deriving Repr
 
 inductive Out
-  | reply (ref : Nat) (fn : Nat) (src dst : List Nat × Nat)
-  | result (ref : Nat) (err : Nat) (src dst : List Nat × Nat)
-  | readReq (fn : Nat) (src dst : List Nat × Nat)
+  | reply (ref : Nat) (fn : Nat) (src dst : Addr)
+  | result (ref : Nat) (err : Nat) (src dst : Addr)
+  | readReq (fn : Nat) (src dst : Addr)
+  | notify (fn : Nat) (src dst : Addr)
   | panic
-deriving Repr
+deriving Repr, DecidableEq
 
 structure Peer where
   feats : List RF
   msgNum : Nat
-  req : List (Nat × (List Nat × Nat) × Nat)   -- counter, destination, function of unanswered requests
+  req : List (Nat × Addr × Nat)   -- counter, destination, function of unanswered requests
 deriving Repr
+
+/-- a registry entry: local server feature, peer (connection), the peer's client feature -/
+abbrev Entry := Addr × Nat × Addr
 
 structure W where
   loc : List LF
   peers : Nat → Peer
-  binds : List ((List Nat × Nat) × Nat × (List Nat × Nat))   -- server, peer, client
-  written : List ((List Nat × Nat) × Nat) := []              -- (local feature, function) whose data a peer has set
+  binds : List Entry
+  subs : List Entry := []
+  written : List (Addr × Nat) := []              -- (local feature, function) whose data a peer has set
+  cfg : Cfg := {}
+  fresh : Peer := ⟨[], 0, []⟩                     -- a peer right after connection and discovery reply
 
 def srcF (w : W) (p : Nat) (d : Dg) : Option RF :=
   (w.peers p).feats.find? fun f => f.ent = d.src.1 && f.feat = d.src.2
@@ -61,32 +96,46 @@ def dstF (w : W) (d : Dg) : Option LF :=
 def panics (d : Dg) : Bool :=
   ((d.cls = .reply || d.cls = .result) && d.ref.isNone) || (d.cls = .result && d.fn ≠ 900)
 
-/-- verdict of HandleMessage for everything but writes: error number or acceptance, and whether a reply was sent -/
-def handle (lf : LF) (rf : RF) (d : Dg) : Option Nat × Bool :=
-  if lf.nm then
-    if d.fn = 900 then (none, false)                         -- processResult
-    else if d.fn = 901 || d.fn = 902 then
-      match d.cls with
-      | .read => (none, true)
-      | .reply => (none, false)
-      | .notify => (none, false)
-      | _ => (some 1, false)
-    else (some 6, false)
-  else
+/-- verdict of NodeManagement.HandleMessage (empty payloads): error number or acceptance, and whether a reply was sent -/
+def handleNM (d : Dg) : Option Nat × Bool :=
+  if d.fn = 900 then (none, false)                         -- processResult
+  else if d.fn = 901 || d.fn = 902 then
     match d.cls with
-    | .result => if d.fn = 900 then (none, false) else (some 1, false)
-    | .read =>
-      if lf.role = .client then (some 7, false)
-      else if lf.fds.contains d.fn then (none, true) else (some 1, false)
-    | .reply => if rf.fds.contains d.fn then (none, false) else (some 1, false)
-    | .notify => if rf.fds.contains d.fn then (none, false) else (some 1, false)
-    | .write => (none, false)
-    | .call => (some 1, false)
+    | .read => (none, true)
+    | .reply => (none, false)
+    | .notify => (none, false)
+    | _ => (some 1, false)
+  else if d.fn = 903 then                                  -- destination list: only the read is implemented
+    match d.cls with
+    | .read => (none, true)
+    | _ => (some 1, false)
+  else if d.fn = 904 || d.fn = 905 then                    -- subscription / binding data are read by `call`
+    match d.cls with
+    | .call => (none, true)
+    | _ => (some 1, false)
+  else (some 6, false)
+
+/-- verdict of FeatureLocal.HandleMessage for everything but writes -/
+def handleF (lf : LF) (rf : RF) (d : Dg) : Option Nat × Bool :=
+  match d.cls with
+  | .result => if d.fn = 900 then (none, false) else (some 1, false)
+  | .read =>
+    if lf.role = .client then (some 7, false)
+    else if lf.fds.contains d.fn then (none, true) else (some 1, false)
+  | .reply => if rf.fds.contains d.fn then (none, false) else (some 1, false)
+  | .notify => if rf.fds.contains d.fn then (none, false) else (some 1, false)
+  | .write => (none, false)
+  | .call => (some 1, false)
+
+def handle (lf : LF) (rf : RF) (d : Dg) : Option Nat × Bool :=
+  if lf.nm then handleNM d else handleF lf rf d
+
+/-- the function is announced writable on the feature -/
+def writable (lf : LF) (fn : Nat) : Bool := lf.ops.any fun o => o.1 = fn && o.2
 
 /-- the write gate of ProcessCmd: function announced writable, writer bound to the feature -/
 def gateOk (w : W) (p : Nat) (lf : LF) (d : Dg) : Bool :=
-  (lf.ops.any fun o => o.1 = d.fn && o.2) &&
-  (w.binds.any fun b => b.1 = d.dst && b.2.1 = p && b.2.2 = d.src)
+  writable lf d.fn && (w.binds.any fun b => b.1 = d.dst && b.2.1 = p && b.2.2 = d.src)
 
 def res (d : Dg) (e : Nat) : Out := .result d.ctr e d.dst d.src
 
@@ -94,7 +143,7 @@ def res (d : Dg) (e : Nat) : Out := .result d.ctr e d.dst d.src
 def responses (w : W) (p : Nat) (lf : LF) (rf : RF) (d : Dg) : List Out :=
   if d.cls = .write && !gateOk w p lf d then [res d 1]
   else if d.cls = .write && !lf.nm then
-    if lf.fds.contains d.fn then (if d.ack then [res d 0] else []) else [res d 1]
+    if lf.fds.contains d.fn && !d.bad then (if d.ack then [res d 0] else []) else [res d 1]
   else match handle lf rf d with
     | (some e, _) => if d.cls ≠ .result then [res d e] else []
     | (none, replied) =>
@@ -107,7 +156,7 @@ def wantsRead (w : W) (p : Nat) (lf : LF) (rf : RF) (d : Dg) : Bool :=
 
 def sendN (pr : Peer) (n : Nat) : Peer := { pr with msgNum := pr.msgNum + n }
 
-def request (pr : Peer) (dst : List Nat × Nat) (fn : Nat) : Peer × Bool :=
+def request (pr : Peer) (dst : Addr) (fn : Nat) : Peer × Bool :=
   if pr.req.any (fun e => e.2.1 = dst && e.2.2 = fn) then (pr, false) else
   let c := pr.msgNum + 1
   let req := if pr.req.length > 20 then
@@ -124,28 +173,153 @@ def answered (pr : Peer) (ref : Option Nat) : Peer :=
 
 def setPeer (w : W) (p : Nat) (pr : Peer) : W := { w with peers := fun q => if q = p then pr else w.peers q }
 
-/-- does the datagram change the addressed feature's data: only an authorised write of a function the feature holds -/
+/-- does the datagram change the addressed feature's data: only an authorised write of a function the feature holds,
+    with a payload the update engine accepts -/
 def applies (w : W) (p : Nat) (lf : LF) (d : Dg) : Bool :=
-  d.cls = .write && gateOk w p lf d && !lf.nm && lf.fds.contains d.fn
+  d.cls = .write && gateOk w p lf d && !lf.nm && lf.fds.contains d.fn && !d.bad
 
-def record (w : W) (p : Nat) (lf : LF) (d : Dg) : W :=
-  if applies w p lf d then { w with written := (d.dst, d.fn) :: w.written } else w
+def record (w : W) (app : Bool) (d : Dg) : W :=
+  if app then { w with written := (d.dst, d.fn) :: w.written } else w
 
-def processCmd (w : W) (p : Nat) (d : Dg) : W × List Out :=
-  let pr := answered (w.peers p) d.ref       -- a reference to an unanswered request re-enables it
+/-- the notifications an accepted write fans out: one per subscription on the written feature, in registry order -/
+def notifs (w : W) (d : Dg) : List (Nat × Out) :=
+  (w.subs.filter fun s => s.1 = d.dst).map fun s => (s.2.1, Out.notify d.fn d.dst s.2.2)
+
+/-- every message written to a connection draws a counter there -/
+def count (q : Nat) (outs : List (Nat × Out)) : Nat := (outs.filter fun o => o.1 = q).length
+
+def bump (w : W) (outs : List (Nat × Out)) : W :=
+  { w with peers := fun q => sendN (w.peers q) (count q outs) }
+
+def tag (p : Nat) (outs : List Out) : List (Nat × Out) := outs.map fun o => (p, o)
+
+/-- one inbound datagram of peer `p`; the outputs are tagged with the connection they are written to -/
+def processCmd (w : W) (p : Nat) (d : Dg) : W × List (Nat × Out) :=
+  let w0 := setPeer w p (answered (w.peers p) d.ref)     -- a reference to an unanswered request re-enables it
   match srcF w p d with
-  | none => (setPeer w p pr, [])
+  | none => (w0, [])
   | some rf =>
     match dstF w d with
-    | none => (setPeer w p (sendN pr 1), [res d 4])      -- as written: also in answer to a result
+    | none =>
+      -- as written: the error result is sent before the classifier is looked at, also in answer to a result
+      if d.cls = .result && !w.cfg.resultOnResult then (w0, []) else (bump w0 [(p, res d 4)], [(p, res d 4)])
     | some lf =>
-      if panics d then (setPeer w p pr, [.panic]) else
-      let outs := responses w p lf rf d
-      let pr := sendN pr outs.length
-      let w' := record w p lf d
+      if panics d then (w0, [(p, .panic)]) else
+      let outs := (if applies w p lf d then notifs w d else []) ++ tag p (responses w p lf rf d)
+      let w1 := bump (record w0 (applies w p lf d) d) outs
       if wantsRead w p lf rf d then
-        let (pr', sent) := request pr d.src d.fn
-        (setPeer w' p pr', outs ++ (if sent then [.readReq d.fn d.dst d.src] else []))
-      else (setPeer w' p pr, outs)
+        let (pr', sent) := request (w1.peers p) d.src d.fn
+        (setPeer w1 p pr', outs ++ (if sent then [(p, .readReq d.fn d.dst d.src)] else []))
+      else (w1, outs)
+
+/-! ### node-management calls and discovery notifications that change the registries -/
+
+inductive Call
+  | bind (c s : Addr) (typ : Nat)      -- nodeManagementBindingRequestCall: client, server, server feature type
+  | unbind (c s : Addr)                -- nodeManagementBindingDeleteCall (client device = the sender's or omitted)
+  | sub (c s : Addr) (typ : Nat)       -- nodeManagementSubscriptionRequestCall
+deriving Repr
+
+def nmAddr : Addr := ([0], 0)
+
+def locF (w : W) (a : Addr) : Option LF := w.loc.find? fun f => f.ent = a.1 && f.feat = a.2
+def remF (w : W) (p : Nat) (a : Addr) : Option RF := (w.peers p).feats.find? fun f => f.ent = a.1 && f.feat = a.2
+
+def typeOk (ftyp typ : Nat) : Bool := ftyp = typ || ftyp = 0
+def srvOk (lf : LF) (typ : Nat) : Bool := (lf.role = .server || lf.role = .special) && typeOk lf.typ typ
+def cliOk (rf : RF) (typ : Nat) : Bool := (rf.role = .client || rf.role = .special) && typeOk rf.typ typ
+
+def hasBinding (w : W) (s : Addr) (p : Nat) (c : Addr) : Bool := w.binds.any fun b => b.1 = s && b.2.1 = p && b.2.2 = c
+
+/-- is the call accepted (`AddBinding` / `RemoveBinding` / `AddSubscription` return nil) -/
+def callOk (w : W) (p : Nat) : Call → Bool
+  | .bind c s typ =>
+    match locF w s, remF w p c with
+    | some lf, some rf => srvOk lf typ && !(w.binds.any fun b => b.1 = s) && cliOk rf typ
+    | _, _ => false
+  | .unbind c s =>
+    match locF w s, remF w p c with
+    | some lf, some _ => (lf.role = .server || lf.role = .special) && hasBinding w s p c
+    | _, _ => false
+  | .sub c s typ =>
+    match locF w s, remF w p c with
+    | some lf, some rf => srvOk lf typ && cliOk rf typ && !(w.subs.any fun b => b.1 = s && b.2.1 = p && b.2.2 = c)
+    | _, _ => false
+
+/-- which entries `RemoveBinding` drops -/
+def unbindDrops (cfg : Cfg) (s : Addr) (p : Nat) (c : Addr) (b : Entry) : Bool :=
+  if cfg.unbindDisjunct then (b.2.1 = p && b.2.2 = c) || b.1 = s else (b.2.1 = p && b.2.2 = c) && b.1 = s
+
+/-- which entries `RemoveBindingsForEntity` drops for entity `e` of peer `p` -/
+def entDrops (cfg : Cfg) (p : Nat) (e : List Nat) (b : Entry) : Bool :=
+  if cfg.entRemovalAnyPeer then b.2.2.1 = e else b.2.1 = p && b.2.2.1 = e
+
+def callApply (w : W) (p : Nat) : Call → W
+  | .bind c s _ => { w with binds := w.binds ++ [(s, p, c)] }
+  | .unbind c s => { w with binds := w.binds.filter fun b => !unbindDrops w.cfg s p c b }
+  | .sub c s _ => { w with subs := w.subs ++ [(s, p, c)] }
+
+def connected (w : W) (p : Nat) : Bool := (remF w p nmAddr).isSome
+
+/-- a call datagram from the peer's node management to the local node management -/
+def processCall (w : W) (p : Nat) (ctr : Nat) (ack : Bool) (k : Call) : W × List (Nat × Out) :=
+  if !connected w p then (w, []) else
+  if callOk w p k then
+    let outs := if ack then [(p, Out.result ctr 0 nmAddr nmAddr)] else []
+    (bump (callApply w p k) outs, outs)
+  else (bump w [(p, Out.result ctr 1 nmAddr nmAddr)], [(p, Out.result ctr 1 nmAddr nmAddr)])
+
+def hasEnt (w : W) (p : Nat) (e : List Nat) : Bool := (w.peers p).feats.any fun f => f.ent = e
+
+/-- the effect of a removed remote entity: its features, the subscriptions and bindings of that entity -/
+def removeEnt (w : W) (p : Nat) (e : List Nat) : W :=
+  { setPeer w p { w.peers p with feats := (w.peers p).feats.filter fun f => f.ent ≠ e } with
+    subs := w.subs.filter fun b => !(b.2.1 = p && b.2.2.1 = e)
+    binds := w.binds.filter fun b => !entDrops w.cfg p e b }
+
+/-- partial discovery notification "entity `e` removed", from the peer's node management -/
+def processEntRem (w : W) (p : Nat) (e : List Nat) (ctr : Nat) (ack : Bool) : W × List (Nat × Out) :=
+  if !connected w p then (w, []) else
+  let outs := if ack then [(p, Out.result ctr 0 nmAddr nmAddr)] else []
+  (bump (if hasEnt w p e then removeEnt w p e else w) outs, outs)
+
+/-- partial discovery notification "entity `e` added" with the features the peer announced for it at first -/
+def processEntAdd (w : W) (p : Nat) (e : List Nat) (ctr : Nat) (ack : Bool) : W × List (Nat × Out) :=
+  if !connected w p then (w, []) else
+  let outs := if ack then [(p, Out.result ctr 0 nmAddr nmAddr)] else []
+  let pr := w.peers p
+  let feats := (pr.feats.filter fun f => f.ent ≠ e) ++ (w.fresh.feats.filter fun f => f.ent = e)
+  (bump (setPeer w p { pr with feats := feats }) outs, outs)
+
+/-- `RemoveRemoteDeviceConnection`: the registries lose what `RemoveSubscriptionsForDevice` /
+    `RemoveBindingsForDevice` drop (entity by entity), the connection's sender and tree are gone -/
+def dropPeer (w : W) (p : Nat) : W :=
+  let ents := (w.peers p).feats.map (·.ent)
+  { setPeer w p ⟨[], 0, []⟩ with
+    subs := w.subs.filter fun b => b.2.1 ≠ p
+    binds := w.binds.filter fun b => !(ents.any fun e => entDrops w.cfg p e b) }
+
+/-- `SetupRemoteDevice` + the peer's discovery reply (discovery read answered; subscription to the peer's node
+    management and use-case read outstanding) -/
+def connPeer (w : W) (p : Nat) : W := if (w.peers p).feats.isEmpty then setPeer w p w.fresh else w
+
+inductive Op
+  | dg (p : Nat) (d : Dg)
+  | call (p : Nat) (ctr : Nat) (ack : Bool) (k : Call)
+  | entRem (p : Nat) (e : List Nat) (ctr : Nat) (ack : Bool)
+  | entAdd (p : Nat) (e : List Nat) (ctr : Nat) (ack : Bool)
+  | drop (p : Nat)
+  | conn (p : Nat)
+deriving Repr
+
+def step (w : W) : Op → W × List (Nat × Out)
+  | .dg p d => processCmd w p d
+  | .call p ctr ack k => processCall w p ctr ack k
+  | .entRem p e ctr ack => processEntRem w p e ctr ack
+  | .entAdd p e ctr ack => processEntAdd w p e ctr ack
+  | .drop p => (dropPeer w p, [])
+  | .conn p => (connPeer w p, [])
+
+def run (w : W) (ops : List Op) : W := ops.foldl (fun w o => (step w o).1) w
 
 end Spine.Disp
